@@ -17,9 +17,12 @@ STRUCTS = {
   'C16Sc': [('v', ('b', 1))],
   'C16Sd': [('p', ('s', 'C16Sa')), ('z', ('b', 8))],
   'C16Se': [('hi', ('b', 40)), ('lo', ('b', 33))],
+  'C16Sf': [('tag', ('b', 3)), ('data', ('b', 61))],
+  'C16Sg': [('a', ('b', 64)), ('b', ('b', 122)), ('q', ('s', 'C16Sf'))],
 }
-STRUCT_ORDER = ['C16Sa', 'C16Sb', 'C16Sc', 'C16Sd', 'C16Se']
-WIDTHS = [1, 1, 1, 2, 3, 4, 4, 8, 8, 16, 32, 33, 64, 65, 100]
+STRUCT_ORDER = ['C16Sa', 'C16Sb', 'C16Sc', 'C16Sd', 'C16Se', 'C16Sf', 'C16Sg']
+WIDTHS = [1, 1, 1, 2, 3, 4, 4, 8, 8, 16, 32, 33, 61, 61, 64, 64, 65, 100, 122, 128, 183]
+WIDE = [61, 61, 64, 100, 122, 128, 183]
 
 HEADER = '''from pymtl3 import *
 
@@ -46,6 +49,17 @@ class C16Sd:
 class C16Se:
   hi: Bits40
   lo: Bits33
+
+@bitstruct
+class C16Sf:
+  tag: Bits3
+  data: mk_bits(61)
+
+@bitstruct
+class C16Sg:
+  a: Bits64
+  b: mk_bits(122)
+  q: C16Sf
 
 class C16Ifc( Interface ):
   def construct( s, T ):
@@ -184,7 +198,7 @@ class Gen:
     nlogic = rng.randint(0, 4) + (2 if depth == 0 else 0)
     for _ in range(nlogic):
       kind = rng.choice(['reg', 'reg', 'counter', 'binop', 'lowent', 'slice', 'assemble', 'field', 'build',
-                         'resize', 'dead', 'const', 'chain', 'toggle', 'regrst'])
+                         'resize', 'dead', 'const', 'chain', 'toggle', 'regrst', 'widetoggle'])
       c.features.add(kind)
       if kind == 'reg':
         e, td = rng.choice(sources)
@@ -211,6 +225,21 @@ class Gen:
         td = ('b', 1)
         r = declare('Wire', 'tg', td)
         upblk([f's.{r} <<= ~s.{r}'], ff=True)
+        sources.append((r, td))
+      elif kind == 'widetoggle':
+        # a wide register (or a wide field of a struct register) flipping between a value and its complement:
+        # consecutive values differ in every bit, in particular by 2^n - 1
+        if rng.random() < 0.6:
+          td = ('b', rng.choice(WIDE))
+          r = declare('Wire', 'wt', td)
+          ens = [e for e, t in sources if t == ('b', 1)]
+          if ens and rng.random() < 0.5: upblk([f'if s.{rng.choice(ens)}: s.{r} <<= ~s.{r}'], ff=True)
+          else: upblk([f's.{r} <<= ~s.{r}'], ff=True)
+        else:
+          sn = rng.choice(['C16Sf', 'C16Sg']); td = ('s', sn)
+          r = declare('Wire', 'wt', td)
+          f = {'C16Sf': 'data', 'C16Sg': rng.choice(['a', 'b', 'q.data'])}[sn]
+          upblk([f's.{r}.{f} <<= ~s.{r}.{f}'], ff=True)
         sources.append((r, td))
       elif kind == 'binop':
         bs = bits_sources()
